@@ -3,7 +3,9 @@
 Implementation: the real editor (`vi -s -e`), observables = `%p` output and the written file.
 Model: the extracted Coq model of ex_arg / re_read / ec_substitute / replace (coq/SubstDefs.v), whose
 matcher (a Section variable) is instantiated with the offsets that /repo's own rstr_find reports on
-every suffix of the line (harness/probe_rstr.c, request tb).
+every suffix of the line (harness/probe_rstr.c, request tb: no flag on the whole line, RE_NOTBOL on the later searches, as
+ec_substitute does).  That table is also compared with the table of the extracted MODEL of rstr_make / rstr_find
+(coq/SubstEngineDefs.v engine_find, driver request ef), the matcher the composed theorems C14_*_engine / C14_notbol_* speak about.
 Oracle: an independent Python implementation of "replace the successive leftmost non-overlapping
 matches found by scanning the ORIGINAL line" with Python's re on translated patterns (real left
 context for \\< \\>, ^ only at the true line start, one character stepped over after any empty match).
